@@ -22,6 +22,9 @@
 (*            site-density power are judged (the property states the entropy  *)
 (*            route); events with handed = TRUE carry the value written by    *)
 (*            SurfaceReaction.to_omkm_yaml instead of the getter's            *)
+(*  fresh   : after an assignment to a public attribute: what the edited    *)
+(*            object answers and what a fresh object built from its current   *)
+(*            attribute values answers (17-digit texts / None / raise:<type>) *)
 (*  raised  : the library raised on a call the property quantifies over    *)
 (* Tolerances: k = 7 for one subtraction / comparison, k = 6 where several *)
 (* multiplications enter (BepRelation, AEntropyRoute, ANoTS).              *)
@@ -113,6 +116,7 @@ Clauses(e) ==
      [] e.ev = "bepvia" -> BepViaClauses(e)
      [] e.ev = "bepuh" -> BepUHClauses(e)
      [] e.ev = "A" -> AClauses(e)
+     [] e.ev = "fresh" -> (IF e.edited = e.fresh THEN {} ELSE {"EditedEqualsFresh"})
      [] e.ev = "raised" -> {"Raises"}
      [] OTHER -> {"UnknownEvent"}
 
